@@ -4187,9 +4187,10 @@ class DecAffine(Affine):
             if x.size > 1:
                 raise ValueError('The expression of x must be a scalar')
 
-        if isinstance(x, (DecVar, DecVarSub, DecAffine)):
+        if isinstance(x, (Vars, VarSub, Affine)):
             if self.model is not x.model:
                 raise ValueError('Models mismatch.')
+        if isinstance(x, (DecVar, DecVarSub, DecAffine)):
             event_adapt = comb_set(event_adapt, x.event_adapt)
 
         if isinstance(z, (DecVar, DecVarSub)):
@@ -4199,9 +4200,10 @@ class DecAffine(Affine):
             if z.size > 1:
                 raise ValueError('The expression of z must be a scalar')
 
-        if isinstance(z, (DecVar, DecVarSub, DecAffine)):
+        if isinstance(z, (Vars, VarSub, Affine)):
             if self.model is not z.model:
                 raise ValueError('Models mismatch.')
+        if isinstance(z, (DecVar, DecVarSub, DecAffine)):
             event_adapt = comb_set(event_adapt, z.event_adapt)
 
         return DecExpConstr(ExpConstr(self.model, x, self, z), event_adapt)
